@@ -839,6 +839,7 @@ impl VolHeader {
     }
 }
 
+#[cfg(feature = "bz")]
 pub fn bzip2_compress(payload: &[u8], level: u32) -> Vec<u8> {
     use bzip2::write::BzEncoder;
     use bzip2::Compression;
